@@ -159,6 +159,9 @@ type RunCfg struct {
 	Sibling  []string
 	BaseCut  int
 	ViaCopy  bool
+	// the key map is partly pre-defined by the caller with a gap (first variable key 1, second key 3); the others
+	// are registered by GetOrRegisterKey and must get keys nobody owns
+	KeyGap bool
 }
 
 func (rc *RunCfg) Coq() string {
@@ -186,6 +189,9 @@ func (rc *RunCfg) Coq() string {
 
 func (rc *RunCfg) Describe() string {
 	d := fmt.Sprintf("opts=%v events=%v stateless=%v costs=%v undefined=%v", rc.Opts, rc.Events || rc.Debug, rc.Stateless, rc.Costs, rc.Undefined)
+	if rc.KeyGap {
+		d += " keymap-predefined-with-gap"
+	}
 	if rc.Sibling != nil {
 		d += fmt.Sprintf(" derived(base declares the first %d, viaCopy=%v, a sibling derived from the same base declares %v)", rc.BaseCut, rc.ViaCopy, rc.Sibling)
 	}
@@ -229,6 +235,10 @@ func (rc *RunCfg) Build() *Built {
 	if rc.Undefined {
 		conf.CompileOptions[eval.AllowUndefinedVariable] = true
 	} else {
+		if rc.KeyGap && len(rc.VarNames) >= 2 {
+			conf.VariableKeyMap[rc.VarNames[0]] = 1
+			conf.VariableKeyMap[rc.VarNames[1]] = 3
+		}
 		for _, n := range rc.VarNames {
 			eval.GetOrRegisterKey(conf, n)
 		}
